@@ -801,8 +801,10 @@ pub fn exec(s: &J) -> J {
         "select" => {
             // one (document, path): all four modes through the Selector API, the convenience
             // functions, existence and predicate match; optionally into pre-filled buffers
-            let jp: Result<JsonPath<'static>, J> = if let Some(p) = a.get("path") {
-                Ok(JsonPath { paths: paths_from_j(p) })
+            // a script may carry the path as text (then the crate's parser is part of the call) and, next
+            // to it, the tree that text was rendered from
+            let jp: Result<JsonPath<'static>, J> = if a.get("ptext").is_none() {
+                Ok(JsonPath { paths: paths_from_j(&a["path"]) })
             } else {
                 let t = j_to_bytes(&a["ptext"]);
                 let leaked: &'static [u8] = Box::leak(t.into_boxed_slice());
